@@ -94,7 +94,7 @@ let parse_ctrl s = match String.split_on_char '.' s with
   | [o; c; v] -> { c_oid = bytes_of_hex o; c_crit = (c = "1"); c_val = (if v = "none" then None else Some (bytes_of_hex v)) }
   | _ -> failwith "ctrl"
 let parse_mods s = match String.split_on_char ':' s with
-  | ["m"; cs; tmo; opts] ->
+  | [("m" | "M"); cs; tmo; opts] ->      (* "M": the scripted server withholds its reply, the operation times out - the modifiers are spent all the same *)
       { m_ctrls = (if cs = "none" then None else Some (List.map parse_ctrl (split_on ';' cs)));
         m_timeout = (if tmo = "none" then None else Some (z_of_decimal tmo));
         m_opts = (if opts = "none" then None else match String.split_on_char '.' opts with
@@ -212,13 +212,16 @@ let lane_stream args =
       end
   | _ -> "BAD-ARGS"
 let lane_paged args =
+  let (args, stop) = (match args with [a; b; c; k] -> ([a; b; c], Some (int_of_string k)) | _ -> (args, None)) in
   match args with
   | [size; uc; pages] ->
       let user = (if String.contains uc 'P' then [CPaged (n_of_int 5, [])] else []) @
                  List.init (int_of_string (String.concat "" (List.filter (fun x -> x <> "P") (List.map (String.make 1) (List.of_seq (String.to_seq (String.sub uc 1 (String.length uc - 1)))))))) (fun k -> COther (nat_of_int k)) in
       let parse_page (p : string) : page =
         let parts = String.split_on_char ',' p in
-        let items = List.filter (fun x -> x.[0] <> 'd') parts and d = List.find (fun x -> x.[0] = 'd') parts in
+        (* items after "w" are withheld by the scripted server: the caller never gets that far *)
+        let rec upto = function [] -> [] | "w" :: _ -> [] | x :: r -> x :: upto r in
+        let items = List.filter (fun x -> x.[0] <> 'd') (upto parts) and d = List.find (fun x -> x.[0] = 'd') parts in
         let it x = let k = nat_of_int (int_of_string (String.sub x 1 (String.length x - 1))) in (match x.[0] with 'e' -> Entry k | 'r' -> Ref k | _ -> Inter k) in
         (match String.split_on_char '.' (String.sub d 1 (String.length d - 1)) with
          | [rc; ck; no] ->
@@ -232,16 +235,25 @@ let lane_paged args =
        | None -> "rejected"
        | Some s0 ->
            let total = List.fold_left (fun a p -> a + List.length p.p_items + 1) 2 pgs in
-           let (items, s') = drain1 (nat_of_int total) s0 in
+           let (items, s') = (match stop with None -> drain1 true (nat_of_int total) s0 | Some k -> take_items true (nat_of_int k) s0) in
+           (* finish(): the result, and the id it scrubs; an id is still reserved afterwards only if the page in flight has not been
+              answered in full (withheld) and is not the one scrubbed *)
+           let withheld_pages = List.mapi (fun i p -> (i + 1, List.mem "w" (String.split_on_char ',' p))) (String.split_on_char ';' pages) in
+           let cur = List.length s'.wire in
+           let st_before = s'.st0 in
+           let ((s', fres), scrub) = finish0 s' in
+           let inflight = if List.mem (cur, true) withheld_pages then [cur] else [] in
+           let left = List.filter (fun i -> match scrub with Some j -> int_of_nat j <> i | None -> true) inflight in
+           let left_s = String.concat "," (List.map string_of_int left) in
            let show_it = function Entry k -> Printf.sprintf "e%d" (int_of_nat k) | Ref k -> Printf.sprintf "r%d" (int_of_nat k) | Inter k -> Printf.sprintf "i%d" (int_of_nat k) in
            let show_req (q : request) =
              let (sz, ck) = (match List.find_opt (function CPaged _ -> true | _ -> false) q.q_ctrls with Some (CPaged (sz, ck)) -> (decimal_of_n sz, hex_of_bytes ck) | _ -> ("none", "none")) in
              Printf.sprintf "%s/%s/%d/%d" sz ck (List.length (List.filter (function COther _ -> true | _ -> false) q.q_ctrls)) (if q.q_params = params then 1 else 0) in
-           let fin = match s'.res1 with
+           let fin = match Some fres with
              | Some r -> Printf.sprintf "rc=%s paged_in_final=%d others=%d" (decimal_of_n r.rc1) (if List.exists is_paged r.ctrls then 1 else 0) (List.length (List.filter (fun c -> not (is_paged c)) r.ctrls))
              | None -> "nores" in
-           Printf.sprintf "items=[%s] end=%s %s wire=[%s]" (String.concat "," (List.map show_it items))
-             (match s'.st0 with Done0 -> "done" | Active0 -> "active" | SError1 -> "error") fin (String.concat ";" (List.map show_req s'.wire)))
+           Printf.sprintf "items=[%s] end=%s %s wire=[%s] left=%s//%s" (String.concat "," (List.map show_it items))
+             (match st_before with Done0 -> "done" | Active0 -> "active" | SError1 -> "error" | Closed0 -> "closed") fin (String.concat ";" (List.map show_req s'.wire)) left_s left_s)
   | _ -> "BAD-ARGS"
 
 (* ---- connection set-up (C18) and TLS establishment (C17) ---- *)
